@@ -481,44 +481,44 @@ def callGrp : StepDef := { name := some "pypyr.steps.call", inArgs := some [("ca
     `mainShared` (no args: the parent context is shared). -/
 def demoProg : Program := ⟨[
   { name := "child", groups := [
-      ("steps", some [probe "c1" [setKeys [("keep", "CLOBBER"), ("x", "new-{seed}"), ("junk", "J")]]]),
-      ("grp", some [probe "g-child"])] },
+      ("steps", .steps [probe "c1" [setKeys [("keep", "CLOBBER"), ("x", "new-{seed}"), ("junk", "J")]]]),
+      ("grp", .steps [probe "g-child"])] },
   { name := "bad", groups := [
-      ("steps", some [probe "b1" [setKeys [("keep", "CLOBBER")], (.str "failRest", .str "E1")], probe "b2"]),
-      ("on_failure", some [probe "h1"])] },
+      ("steps", .steps [probe "b1" [setKeys [("keep", "CLOBBER")], (.str "failRest", .str "E1")], probe "b2"]),
+      ("on_failure", .steps [probe "h1"])] },
   { name := "halt", groups := [
-      ("steps", some [probe "s1", { name := some "pypyr.steps.stop", simple := true }, probe "s2"])] },
+      ("steps", .steps [probe "s1", { name := some "pypyr.steps.stop", simple := true }, probe "s2"])] },
   { name := "quit", groups := [
-      ("steps", some [probe "q1", { name := some "pypyr.steps.stoppipeline", simple := true }, probe "q2"])] },
+      ("steps", .steps [probe "q1", { name := some "pypyr.steps.stoppipeline", simple := true }, probe "q2"])] },
   { name := "main", groups := [
-      ("steps", some [
+      ("steps", .steps [
         probe "m1" [setKeys [("keep", "K"), ("x", "old")]],
         pype [(.str "name", .str "child"), (.str "args", .dict [(.str "seed", .str "S")]),
               (.str "out", .list [.str "x"])],
         probe "m2", callGrp]),
-      ("grp", some [probe "g-main"])] },
+      ("grp", .steps [probe "g-main"])] },
   { name := "mainErr", groups := [
-      ("steps", some [
+      ("steps", .steps [
         probe "m1" [setKeys [("keep", "K")]],
         pype [(.str "name", .str "bad"), (.str "args", .dict [(.str "seed", .str "S")]),
               (.str "raiseError", .bool false)],
         probe "m2"])] },
   { name := "mainRaise", groups := [
-      ("steps", some [
+      ("steps", .steps [
         probe "m1" [setKeys [("keep", "K")]],
         pype [(.str "name", .str "bad"), (.str "useParentContext", .bool false)],
         probe "m2"])] },
   { name := "mainStop", groups := [
-      ("steps", some [probe "m1", pype [(.str "name", .str "halt"), (.str "raiseError", .bool false)], probe "m2"])] },
+      ("steps", .steps [probe "m1", pype [(.str "name", .str "halt"), (.str "raiseError", .bool false)], probe "m2"])] },
   { name := "mainQuit", groups := [
-      ("steps", some [probe "m1", pype [(.str "name", .str "quit")], probe "m2", callGrp]),
-      ("grp", some [probe "g-main"])] },
+      ("steps", .steps [probe "m1", pype [(.str "name", .str "quit")], probe "m2", callGrp]),
+      ("grp", .steps [probe "g-main"])] },
   { name := "mainShared", groups := [
-      ("steps", some [
+      ("steps", .steps [
         probe "m1" [setKeys [("keep", "K"), ("seed", "S")]],
         pype [(.str "name", .str "child")],
         probe "m2", callGrp]),
-      ("grp", some [probe "g-shared"])] }]⟩
+      ("grp", .steps [probe "g-shared"])] }]⟩
 
 /-- own context + `out`: the child clobbered `keep` and set `junk` — the parent sees neither; `x` is
     the child's value **formatted against the child's context** (`new-{seed}` ↦ `new-S`); `seed` (an
